@@ -1,6 +1,9 @@
 package zzverif
 
 import (
+	"bytes"
+
+	jsonpatch "github.com/evanphx/json-patch/v5"
 	json "github.com/evanphx/json-patch/v5/internal/json"
 	"github.com/evanphx/json-patch/v5/zzverif/vx"
 )
@@ -17,5 +20,145 @@ func H_C16_Valid() {
 		vx.Reach("C16/valid/accept")
 	} else {
 		vx.Reach("C16/valid/reject")
+	}
+}
+
+// codecAccepts runs Compact, Indent and Unmarshal on data and reports their verdicts.
+func codecAccepts(data []byte, id string) (panicked bool) {
+	want := refValid(data)
+	var cOK, iOK, uOK bool
+	panicked = vx.CatchPanic(func() {
+		var b1, b2, b3 bytes.Buffer
+		cOK = json.Compact(&b1, data) == nil
+		iOK = json.Indent(&b2, data, "", " ") == nil
+		var v interface{}
+		uOK = json.Unmarshal(data, &v) == nil
+		json.HTMLEscape(&b3, data)
+	})
+	vx.Assert(!panicked, "C16/"+id+"-codec-no-panic")
+	if panicked {
+		vx.Note("panic", []byte(vx.PanicMsg()))
+		return
+	}
+	vx.Assert(cOK == want, "C16/"+id+"-compact-accepts-iff-wellformed")
+	vx.Assert(iOK == want, "C16/"+id+"-indent-accepts-iff-wellformed")
+	vx.Assert(uOK == want, "C16/"+id+"-unmarshal-accepts-iff-wellformed")
+	if want {
+		vx.Reach("C16/codec/accept")
+	} else {
+		vx.Reach("C16/codec/reject")
+	}
+	return
+}
+
+// H_C16_Codec: Compact, Indent, Unmarshal accept exactly the well-formed texts among all byte strings of length n.
+func H_C16_Codec() {
+	data := vx.Bytes("data", vx.Param("n"))
+	vx.Note("data", data)
+	codecAccepts(data, "bytes")
+}
+
+var c16Templates = []string{
+	`{"a":1,"b":[true,null],"c":"x"}`,
+	`[1,-0.5e+3,"é\n",{"k":{}}]`,
+	`{"":0}`,
+	`[[],[[]],{"a":[{}]}]`,
+	` "s" `,
+	`-12.0E-1`,
+	`{"a":"😀","b":false}`,
+}
+
+// H_C16_Template: a well-formed template with k unconstrained bytes inserted at (mode 0) or overwriting from
+// (mode 1) any position: Valid, Compact, Indent, Unmarshal must agree with the reference recogniser.
+// Reaches strings far longer than the fully symbolic bound (trailing commas, truncations, bad escapes, stray bytes).
+func H_C16_Template() {
+	t := []byte(c16Templates[vx.Choose("template", vx.Param("ntemplates"))])
+	k := vx.Param("k")
+	mode := vx.Choose("mode", 2)
+	var data []byte
+	if mode == 0 {
+		pos := vx.Choose("pos", len(t)+1)
+		data = append(data, t[:pos]...)
+		data = append(data, vx.Bytes("x", k)...)
+		data = append(data, t[pos:]...)
+	} else {
+		if len(t) < k {
+			return
+		}
+		pos := vx.Choose("pos", len(t)-k+1)
+		data = append(data, t[:pos]...)
+		data = append(data, vx.Bytes("x", k)...)
+		data = append(data, t[pos+k:]...)
+	}
+	vx.Note("data", data)
+	got := json.Valid(data)
+	vx.Assert(got == refValid(data), "C16/template-valid-eq-ref")
+	codecAccepts(data, "template")
+	vx.Reach("C16/template/end")
+}
+
+// H_C16_Gates: every public entry point, one argument = a well-formed template with one unconstrained byte
+// prepended and one appended: accepted exactly when the reference recogniser accepts the text.
+func H_C16_Gates() {
+	pre, post := vx.Byte("pre"), vx.Byte("post")
+	wrap := func(t string) []byte {
+		return append(append([]byte{pre}, t...), post)
+	}
+	var acc, want bool
+	var text []byte
+	fn := vx.Choose("fn", 8)
+	panicked := vx.CatchPanic(func() {
+		switch fn {
+		case 0: // Apply: document object
+			text = wrap(`{"a":1}`)
+			p, _ := jsonpatch.DecodePatch([]byte(`[{"op":"add","path":"/b","value":2}]`))
+			_, err := p.Apply(text)
+			acc = err == nil
+		case 1: // Apply: document array
+			text = wrap(`[1]`)
+			p, _ := jsonpatch.DecodePatch([]byte(`[{"op":"add","path":"/-","value":2}]`))
+			_, err := p.Apply(text)
+			acc = err == nil
+		case 2: // DecodePatch
+			text = wrap(`[{"op":"remove","path":"/a"}]`)
+			_, err := jsonpatch.DecodePatch(text)
+			acc = err == nil
+		case 3: // MergePatch: document
+			text = wrap(`{"a":1}`)
+			_, err := jsonpatch.MergePatch(text, []byte(`{"b":2}`))
+			acc = err == nil
+		case 4: // MergePatch: patch
+			text = wrap(`{"b":null}`)
+			_, err := jsonpatch.MergePatch([]byte(`{"a":1,"b":2}`), text)
+			acc = err == nil
+		case 5: // MergeMergePatches
+			text = wrap(`{"b":null}`)
+			_, err := jsonpatch.MergeMergePatches([]byte(`{"a":1}`), text)
+			acc = err == nil
+		case 6: // CreateMergePatch
+			text = wrap(`{"a":{"b":1}}`)
+			_, err := jsonpatch.CreateMergePatch([]byte(`{"a":{"b":2}}`), text)
+			acc = err == nil
+		case 7: // Equal
+			text = wrap(`{"a":[1,"x"]}`)
+			acc = jsonpatch.Equal(text, []byte(`{"a":[1,"x"]}`))
+		}
+	})
+	vx.Note("text", text)
+	vx.Assert(!panicked, "C04/gates-no-panic")
+	if panicked {
+		vx.Note("panic", []byte(vx.PanicMsg()))
+		return
+	}
+	want = refValid(text)
+	if isWS(pre) && isWS(post) {
+		vx.Assert(acc, "C16/entry-point-accepts-surrounding-whitespace")
+		vx.Reach("C16/gates/accept")
+	} else if !want {
+		vx.Assert(!acc, "C16/entry-point-rejects-malformed")
+		vx.Reach("C16/gates/reject")
+	} else {
+		// still well-formed but of another shape ([...] or "..." around the template): not compared
+		vx.Reach("C16/gates/other-shape")
 	}
 }
